@@ -1,4 +1,168 @@
-(* C06 -- hierarchical composition is functional substitution.  Statements only; proofs in Proofs/ComposeProofs.v. *)
-From stdpp Require Import strings gmap sets.
-From CG Require Import Model.Compose6.
+(* C06 -- hierarchical composition is functional substitution.  Statements only; proofs in Proofs/ComposeProofs.v,
+   Proofs/FillProofs.v, Proofs/FastEvalProofs.v. *)
+From stdpp Require Import strings gmap pmap sets.
+From CG Require Import Base.Cases Base.Compose Base.Oracle Model.Compose6 Model.FastEval Proofs.ComposeProofs Proofs.FillProofs Proofs.FastEvalProofs.
 Open Scope string_scope.
+
+(* add_subcircuit(sc, name, connections) with the default strip_io, whenever the call is accepted: the parent's name,
+   inputs and outputs are unchanged, the node set grows by the prefixed copy, the registry is the parent's plus the
+   child's entries under prefixed names. *)
+Theorem C06_add_subcircuit_struct : ∀ P SC name conns P',
+  add_subcircuit P SC name conns = (P', Done) →
+  c_name P' = c_name P ∧
+  c_bbs P' = kmap (pre name) (c_bbs SC) ∪ c_bbs P ∧
+  (∀ b d, c_bbs SC !! b = Some d → c_bbs P' !! pre name b = Some d) ∧
+  (∀ b d, c_bbs P !! b = Some d → c_bbs P' !! b = Some d) ∧
+  inputs (c_g P') = inputs (c_g P) ∧ outputs (c_g P') = outputs (c_g P) ∧
+  dom (c_g P') = dom (c_g P) ∪ set_map (pre name) (dom (c_g SC)).
+Proof. exact add_subcircuit_struct. Qed.
+Print Assumptions C06_add_subcircuit_struct.
+
+(* Functional substitution.  For any connection map (child inputs fed from arbitrary nets, child outputs driving undriven
+   buffers / blackbox input pins of the parent -- `out_targets_free`, the side condition of the property text), the
+   consistent valuations of the result are exactly those that are consistent for the parent (every pre-existing node keeps its
+   equation), whose pull-back along name_ is consistent for strip_io(sc) (name_n takes the value n has in sc), and in which
+   every attached pair of nets carries one value (sc's inputs take the values of the nets they were attached to). *)
+Theorem C06_add_subcircuit : ∀ P SC name conns P',
+  add_subcircuit P SC name conns = (P', Done) → out_targets_free P SC conns →
+  ∀ v, consistent (c_g P') v ↔
+       consistent (c_g P) v ∧ consistent (strip_io (c_g SC)) (v ∘ pre name) ∧ Forall (conn_ok SC name v) conns.
+Proof. exact add_subcircuit_sem. Qed.
+Print Assumptions C06_add_subcircuit.
+
+(* fill_blackbox(name, sc), whenever accepted: the filled blackbox disappears from the registry, sc's own blackboxes are
+   carried over under prefixed names, sc's io is the blackbox's io. *)
+Theorem C06_fill_struct : ∀ P inst SC P' d,
+  c_bbs P !! inst = Some d → fill_blackbox P inst SC = (P', Done) →
+  c_name P' = c_name P ∧ c_bbs P' = kmap (pre inst) (c_bbs SC) ∪ delete inst (c_bbs P) ∧
+  c_bbs P' !! inst = None ∧
+  (∀ b e, c_bbs SC !! b = Some e → c_bbs P' !! pre inst b = Some e) ∧
+  inputs (c_g SC) = bb_in d ∧ outputs (c_g SC) = bb_out d.
+Proof. exact fill_blackbox_struct. Qed.
+Print Assumptions C06_fill_struct.
+
+Theorem C06_fill_dom : ∀ P inst SC P' d,
+  c_bbs P !! inst = Some d → fill_blackbox P inst SC = (P', Done) →
+  dom (c_g P') = set_map (pin_to_node inst d) (dom (c_g P)) ∪ set_map (pre inst) (dom (c_g SC)).
+Proof. exact fill_blackbox_dom. Qed.
+Print Assumptions C06_fill_dom.
+
+(* Functional substitution for fill_blackbox.  Well-formedness of the instance (what add_blackbox creates and lint demands):
+   the parent is closed, sc's inputs are undriven, no pin is both input and output, the input pins inst.p are bb_input nodes and
+   the output pins inst.q are undriven bb_output nodes.  Then the consistent valuations of the result are exactly those under
+   which the parent -- with every pin inst.p read at the node inst_p that replaced it -- is consistent (every pre-existing node
+   keeps its equation; the input pins still equal their drivers; the loads of inst.q now see inst_q) and whose pull-back along
+   inst_ is consistent for strip_io(sc) (the spliced copy computes sc on the pin values). *)
+Theorem C06_fill : ∀ P inst SC P' d,
+  closed (c_g P) →
+  (∀ n i, c_g SC !! n = Some i → n_ty i = Input → n_fi i = ∅) →
+  bb_in d ## bb_out d →
+  (∀ p i, p ∈ bb_in d → c_g P !! pin inst p = Some i → n_ty i = BbIn) →
+  (∀ q i, q ∈ bb_out d → c_g P !! pin inst q = Some i → n_ty i = BbOut ∧ n_fi i = ∅) →
+  c_bbs P !! inst = Some d → fill_blackbox P inst SC = (P', Done) →
+  ∀ v, consistent (c_g P') v ↔
+       consistent (c_g P) (v ∘ pin_to_node inst d) ∧ consistent (strip_io (c_g SC)) (v ∘ pre inst).
+Proof. exact fill_blackbox_sem. Qed.
+Print Assumptions C06_fill.
+
+(* strip_blackboxes(c, ignore_pins): every kept bb_input pin becomes an output buffer inst_pin, every kept bb_output pin an input
+   inst_pin, ignored pins are deleted, the registry is emptied, and no other node's function changes: the consistent valuations of
+   the result are those of the circuit without the ignored pins, read through the renaming of the kept pins. *)
+Theorem C06_strip_blackboxes : ∀ C ign R,
+  closed (c_g C) → strip_blackboxes C ign = Ok R →
+  let g := c_g C in let kept := kept_pins g ign in let ρ := pin_rho kept in
+  let pruned := remove_g g (elements (ignored_pins g ign)) in
+  c_name R = c_name C ∧ c_bbs R = ∅ ∧
+  dom (c_g R) = set_map ρ (dom pruned) ∧
+  (∀ n, n ∈ kept → n ∈ of_type g (is_ty BbIn) →
+     ρ n = undot n ∧ undot n ∈ outputs (c_g R) ∧ ty (c_g R) (undot n) = Some Buf) ∧
+  (∀ n, n ∈ kept → n ∈ of_type g (is_ty BbOut) → undot n ∈ inputs (c_g R)) ∧
+  (∀ n, n ∈ ignored_pins g ign → n ∉ dom pruned) ∧
+  ∀ v, consistent (c_g R) v ↔ consistent pruned (v ∘ ρ).
+Proof. exact strip_blackboxes_spec. Qed.
+Print Assumptions C06_strip_blackboxes.
+
+Theorem C06_strip_blackboxes_noignore : ∀ C R,
+  closed (c_g C) → strip_blackboxes C [] = Ok R →
+  let g := c_g C in let ρ := pin_rho (bb_pins g) in
+  c_name R = c_name C ∧ c_bbs R = ∅ ∧
+  dom (c_g R) = set_map ρ (dom g) ∧
+  (∀ n, n ∈ of_type g (is_ty BbIn) →
+     ρ n = undot n ∧ undot n ∈ outputs (c_g R) ∧ ty (c_g R) (undot n) = Some Buf) ∧
+  (∀ n, n ∈ of_type g (is_ty BbOut) → undot n ∈ inputs (c_g R)) ∧
+  ∀ v, consistent (c_g R) v ↔ consistent (c_g C) (v ∘ ρ).
+Proof. exact strip_blackboxes_spec_noignore. Qed.
+Print Assumptions C06_strip_blackboxes_noignore.
+
+(* Not proved (decided per recorded result by the oracle, Run/Run_C06.v):
+   - inputs/outputs of the parent unchanged by fill_blackbox (`inputs (c_g P') = inputs (c_g P)`): *)
+Definition C06_fill_io_full : Prop := ∀ P inst SC P' d,
+  c_bbs P !! inst = Some d → fill_blackbox P inst SC = (P', Done) →
+  (∀ p i, p ∈ bb_in d ∪ bb_out d → c_g P !! pin inst p = Some i → n_ty i ≠ Input ∧ n_out i = false) →
+  inputs (c_g P') = inputs (c_g P) ∧ outputs (c_g P') = outputs (c_g P).
+(*  - the specification of add_blackbox (registry entry + typed pins + attached nets equal), and
+    - for add_subcircuit with strip_io=False. *)
+
+(* building blocks named in the design: driving a free buffer adds exactly the constraint v x = v u *)
+Theorem C06_drive_node : ∀ c u x i v, c !! x = Some i → (n_ty i = Buf ∨ n_ty i = BbIn) → n_fi i ⊆ {[u]} →
+  consistent (add_edge c u x) v ↔ consistent c v ∧ v x = v u.
+Proof. exact drive_node. Qed.
+Print Assumptions C06_drive_node.
+
+(* the oracle's compiled checks are Oracle.consistentb, i.e. `consistent` *)
+Theorem C06_oracle_check_is_consistent : ∀ T (ix : index) f G,
+  check_prog T (compile ix f G ∅) = true ↔ consistent G (tab_val T ix ∘ f).
+Proof. exact check_prog_consistent. Qed.
+Print Assumptions C06_oracle_check_is_consistent.
+
+(* non-vacuity: a parent with an undriven buffer h, a child with input a and output o; a is fed from x, o drives h *)
+Definition exP := mk "top" [("x", Input, false, []); ("h", Buf, false, []); ("g", And, true, ["x"; "h"])] [].
+Definition exSC := mk "inv" [("a", Input, false, []); ("o", Not, true, ["a"])] [].
+Definition exConns : list (string * list string) := [("a", ["x"]); ("o", ["h"])].
+Example C06_example_accepted :
+  (add_subcircuit exP exSC "u0" exConns).2 = Done ∧ size (c_g (add_subcircuit exP exSC "u0" exConns).1) = 5.
+Proof. split; vm_compute; reflexivity. Qed.
+Example C06_example_targets_free : out_targets_free exP exSC exConns.
+Proof.
+  intros kv net Hkv Hni Hnet. unfold exConns in Hkv.
+  apply elem_of_cons in Hkv as [->|Hkv].
+  - exfalso. apply Hni. apply elem_of_inputs. exists (mk_node Input false ∅). split; [|done]. vm_compute. reflexivity.
+  - apply elem_of_list_singleton in Hkv as ->. apply elem_of_list_singleton in Hnet as ->.
+    exists (mk_node Buf false ∅). split; [vm_compute; reflexivity|]. split; [by left|done].
+Qed.
+
+(* a flip-flop instance on the parent, filled with a buffer; then stripped instead *)
+Definition exPF := mk "top" [("x", Input, false, []); ("f.d", BbIn, false, ["x"]); ("f.q", BbOut, false, []); ("y", Buf, true, ["f.q"])]
+                      [("f", mk_bb "ff" ["d"] ["q"])].
+Definition exBody := mk "body" [("d", Input, false, []); ("q", Not, true, ["d"])] [].
+Definition exD := mk_bb "ff" ["d"] ["q"].
+Example C06_example_fill_wf :
+  closed (c_g exPF) ∧
+  (∀ n i, c_g exBody !! n = Some i → n_ty i = Input → n_fi i = ∅) ∧
+  bb_in exD ## bb_out exD ∧
+  (∀ p i, p ∈ bb_in exD → c_g exPF !! pin "f" p = Some i → n_ty i = BbIn) ∧
+  (∀ q i, q ∈ bb_out exD → c_g exPF !! pin "f" q = Some i → n_ty i = BbOut ∧ n_fi i = ∅) ∧
+  c_bbs exPF !! "f" = Some exD.
+Proof.
+  split; [apply closedb_spec; vm_compute; reflexivity|].
+  split.
+  { intros n i Hn Hty. assert (Hall : map_Forall (λ _ i, n_ty i = Input → n_fi i = ∅) (c_g exBody)).
+    { apply (bool_decide_unpack _). vm_compute. exact I. }
+    exact (Hall n i Hn Hty). }
+  split; [apply (bool_decide_unpack _); vm_compute; exact I|].
+  split.
+  { intros p i Hp. assert (p = "d") as -> by (revert Hp; unfold exD, mk_bb; simpl; set_solver).
+    intros Hl. assert (c_g exPF !! pin "f" "d" = Some (mk_node BbIn false {["x"]})) as Hc by (apply (bool_decide_unpack _); vm_compute; exact I).
+    rewrite Hc in Hl. by injection Hl as <-. }
+  split.
+  { intros p i Hp. assert (p = "q") as -> by (revert Hp; unfold exD, mk_bb; simpl; set_solver).
+    intros Hl. assert (c_g exPF !! pin "f" "q" = Some (mk_node BbOut false ∅)) as Hc by (apply (bool_decide_unpack _); vm_compute; exact I).
+    rewrite Hc in Hl. by injection Hl as <-. }
+  apply (bool_decide_unpack _). vm_compute. exact I.
+Qed.
+Example C06_example_fill : (fill_blackbox exPF "f" exBody).2 = Done ∧ size (c_g (fill_blackbox exPF "f" exBody).1) = 4
+  ∧ c_bbs (fill_blackbox exPF "f" exBody).1 = ∅.
+Proof. repeat split; apply (bool_decide_unpack _); vm_compute; exact I. Qed.
+Example C06_example_strip : ∃ R, strip_blackboxes exPF [] = Ok R ∧ inputs (c_g R) = {["x"; "f_q"]} ∧ outputs (c_g R) = {["y"; "f_d"]}.
+Proof. eexists (mk "top" [("x", Input, false, []); ("f_d", Buf, true, ["x"]); ("f_q", Input, false, []); ("y", Buf, true, ["f_q"])] []).
+  repeat split; apply (bool_decide_unpack _); vm_compute; exact I. Qed.
